@@ -19,8 +19,8 @@ CHECKS = {
     "C02": ex("model-based PBT: generated query chains + exhaustive-per-state search sweep vs. model predicate; metamorphic re-run with complemented index assignment; direct big-index property",
               "Every generated query (all operators, And/Or chains, indexed/unindexed/nested/through-nil paths, boundary and absent probes) and an automatic sweep over every stored value and its neighbours are compared as multisets with predicates evaluated on the model, after every op of a generated history; the same program is re-run with the index assignment complemented; a second property hammers one index with up to 200 keys.",
               "DESIGN.md §4 C02"),
-    "C03": ex("model-based stateful PBT with tiny value domains: accept/reject iff oracle",
-              "Histories on collections with 1-3 unique paths where conflicts are the norm; the model decides acceptance exactly (iff), including reuse of released values and behaviour after reopen; all read paths compared after every op.",
+    "C03": ex("model-based stateful PBT with tiny value domains: accept/reject iff oracle; plus a big-collection property (1000-1700 objects, generated deletion order) against a map model",
+              "Histories on collections with 1-3 unique paths where conflicts are the norm; the model decides acceptance exactly (iff), including reuse of released values and behaviour after reopen; all read paths compared after every op. TestC03Mass repeats uniqueness (both directions), release and the sorted index on collections of more than a thousand objects deleted down to a few.",
               "DESIGN.md §4 C03"),
     "C04": ex("differential PBT: complete observation before Close vs. after Open (and vs. model), 64-bit/timestamp biased values",
               "Generated histories with Close+Open / abandon+Open at arbitrary positions; the full observation (objects, AssignIndex order, search sweep over all operators and neighbours, Control) of the old handle must equal that of the new handle and the model; later ops must behave as the model says.",
@@ -36,15 +36,15 @@ CHECKS = {
     "C07": ex("model-based PBT over generated batches and chunk sizes",
               "Batches mixing fresh objects, updates, the same object twice, duplicate uuids, wrong-type and invalid members and intra-batch conflicts at generated positions, for Many and Bulk with chunk sizes 0-5; (n, err) and the complete observation are compared with the model's all-or-nothing / whole-chunk semantics.",
               "DESIGN.md §4 C07"),
-    "C08": ex("generated concurrent programs (general, contention, readers, flushers classes) under the Go race detector + porcupine linearizability check of recorded histories against the reference model + final-consistency invariant",
+    "C08": ex("generated concurrent programs (general, contention, batchreaders, creators, readers, flushers classes) under the Go race detector + porcupine linearizability check of recorded histories against the reference model + final-consistency invariant",
               "Generated multi-goroutine programs over all public entry points run several times under different GOMAXPROCS with random yields at fs call sites in a -race build; any race report or crash is a violation; for the class of calls that are atomic observable pieces the recorded history (closed by a sequential sweep) must be linearizable w.r.t. the model (porcupine). Schedules are sampled.",
               "DESIGN.md §4 C08", "exploration",
               TRUST + " Trusted additionally: Go's race detector and porcupine v1.3.0. Interleavings are sampled; the race detector is order-insensitive for accesses that occur in the run."),
-    "C09": ex("generated concurrent programs on a lock-instrumented copy: single-threaded lock-discipline monitor (confirmed by writer injection) + progress watchdog",
+    "C09": ex("generated concurrent programs on a lock-instrumented copy: single-threaded lock-discipline monitor (confirmed by writer injection) + progress watchdog; workers also start on crash states and Bulk producers call the handle",
               "Every generated program (all entry points, all configurations, flusher running) is executed single-threaded under a lock monitor that flags re-entrant read acquisitions, self deadlocks and lock-order cycles deterministically, then concurrently with perturbation under a watchdog that declares a hang only when all workers sit in lock acquisitions on two samples.",
               "DESIGN.md §4 C09", "exploration",
               TRUST + " 'For every call path' is approximated dynamically: a nested acquisition on a path no generated program executes is missed (evidence lists the entry points executed)."),
-    "C10": ex("model-based stateful PBT under a harness-owned virtual clock: visibility after every op, deadline-based disk oracle through an independent walker, second-handle differential after flush/Close, collections sharing one Schema value; plus generated readers-vs-flusher liveness runs on a scaled clock",
+    "C10": ex("model-based stateful PBT under a harness-owned virtual clock: visibility after every op, deadline-based disk oracle through an independent walker, second-handle differential after flush/Close, collections sharing one Schema value, age rule (no accepted write older than timeout + 2 steps off disk, whatever calls arrive), restart-with-corruption-and-Repair op; plus generated readers-vs-flusher liveness runs on a scaled clock",
               "time.Sleep of the working-tree copy is redirected to a virtual clock, so threshold/timeout driven flushes are stepped deterministically; liveness is checked as 'on disk by an explicit conservative virtual-time deadline'.",
               "DESIGN.md §4 C10", "exploration",
               TRUST + " Assumes the flusher measures time only through time.Sleep/After/Ticker."),
@@ -57,7 +57,7 @@ CHECKS = {
     "C13": ex("model-based PBT on tie-heavy collections: key-sequence oracle for order, Reverse, Limit, One, AssignIndex",
               "The returned key sequence must equal the first min(limit, matches) keys of the model's sorted match set (tie order left free), results must be distinct members of the match set; AssignIndex is compared after every op.",
               "DESIGN.md §4 C13"),
-    "C14": ex("PBT over generated object shapes (incl. containers nested in containers, zero values in interface slots) with reflection-driven mutation scripts, address-set disjointness and cold-handle file round trip",
+    "C14": ex("PBT over generated object shapes (incl. containers nested in containers, zero values in interface slots) with reflection-driven mutation scripts, address-set disjointness and cold-handle file round trip; distinct types sharing one name; first reads of a cold handle mutated",
               "Caller objects are scrambled after storing, returned objects are scrambled after reading, successive reads must share no reachable pointer/slice/map, and a cached read must equal a cold read through the file.",
               "DESIGN.md §4 C14"),
     "C15": ex("model-based PBT with data-driven Transform/Validate hooks on all insertion entry points",
@@ -66,15 +66,15 @@ CHECKS = {
     "C16": ex("model-based PBT over case-mapping strings (special-casing runes, long strings) on top-level/nested/behind-pointer/embedded paths, indexed or not, unique or not, through custom schemas and through struct tags",
               "Stored values, probes and uniqueness are all judged on strings.ToUpper/ToLower canonical forms; idempotence is checked on what the database returns.",
               "DESIGN.md §4 C16"),
-    "C17": ex("PBT over (stored shape, current shape) pairs from a struct family + generated descriptor edits + generated settings switches on a live handle under the virtual clock",
+    "C17": ex("PBT over (stored shape, current shape) pairs from a 14-member struct family + generated descriptor edits + generated settings switches on a live handle under the virtual clock",
               "Refusals must carry the predicted sentinel on every operation and leave the directory byte-identical; compatible Create is idempotent; cache/async switches at arbitrary points never lose or stale a write and never kill the process.",
               "DESIGN.md §4 C17", "exploration",
-              TRUST + " The current-shape side is a finite hand-written family (Go types are static)."),
+              TRUST + " The current-shape side is a finite hand-written family of 14 shapes (Go types are static)."),
     "C18": ex("independent directory walker/decoder on generated histories + golden corpus written by the pinned release, opened, extended and re-walked",
               "No sod code is used to judge the layout; 40 directories produced by the pinned release under 26 configurations must open with identical contents, search behaviour and constraints, and stay loadable after generated further writes.",
               "DESIGN.md §4 C18", "exploration",
               TRUST + " Trusted additionally: the golden corpus under /verif/golden (verified against the model by the walker when it was recorded)."),
-    "C19": ex("structure-aware mutation of schema.json/object files + stray directory entries + hostile search argument triples, battery of API calls under recover() and a watchdog; native go fuzzing in the thorough tier",
+    "C19": ex("structure-aware mutation of schema.json/object files + stray directory entries + hostile search argument triples, battery of API calls under recover() and a watchdog, scans must fail or cover the collection; native go fuzzing in the thorough tier",
               "Any panic or hang is a violation; unevaluable searches must return no objects; with only stray entries added everything must still equal the model.",
               "DESIGN.md §4 C19"),
     "C20": ex("model-based PBT: search evaluated, generated writes placed relative to the result range, then consumed or refined (sibling/late And/Or derivations); snapshot-set oracle",
